@@ -510,6 +510,12 @@ def fix_run(args):
         c._get_tokens_of_interest = mk_toi(g)
     signal.signal(signal.SIGALRM, _alarm)
     signal.alarm(opts.get("timeout", 300))
+    # the sidecar contracts of the fix bases are evaluated at every real _fix_violation call of this run
+    from bounded import monitor
+
+    mon = {}
+    stats["contracts"] = mon
+    undo_monitor = monitor.install(mon) if opts.get("monitor", True) else (lambda: None)
     try:
         try:
             oRules.fix(7, [], None)
@@ -522,6 +528,7 @@ def fix_run(args):
             return probs, stats
         finally:
             signal.alarm(0)
+            undo_monitor()
             rule.Rule.fix, rule.Rule.analyze = orig_fix, orig_analyze
             for c, a, f in saved_over:
                 if a is not None:
